@@ -30,7 +30,7 @@ RULE = ("each run draws capacity 1-12, a refill rate from {0.005..50}/s, 1-5 pee
         "bound over the admitted history. distinct = distinct (config, decision-vector, eviction "
         "pattern) signatures; non-trivial = at least one refusal AND (an eviction or a concurrent "
         "burst or a second address) occurred")
-PROBES = ["config_from_toml", "cleanup_race_scenario", "eviction_happened", "refusal", "slow_refill_run", "concurrent_burst", "wire_mode",
+PROBES = ["many_address_flood", "config_from_toml", "cleanup_race_scenario", "eviction_happened", "refusal", "slow_refill_run", "concurrent_burst", "wire_mode",
           "idle_ge_600_with_partial_bucket"]
 COMPONENTS = {
     "real": ["nauyaca.server.middleware.RateLimiter/TokenBucket/MiddlewareChain",
@@ -53,6 +53,36 @@ class Model:
         self.cap = Fraction(cap)
         self.rate = Fraction(rate)
         self.b = {}
+        self.inexact = {}     # ip -> True once binary floating point may have rounded
+
+    @staticmethod
+    def _repr(x):
+        try:
+            return Fraction(float(x)) == x
+        except OverflowError:
+            return False
+
+    def grey(self, ip, now):
+        """The exact level is within EPS of the admission threshold and the
+        implementation's float arithmetic cannot be held to the exact answer:
+        either the level is not exactly 1, or it is exactly 1 but some
+        intermediate value since the bucket was last full was not representable
+        in binary floating point (so a correctly rounded float can sit one ulp
+        below 1).  On a float-exact history `level == 1` stays a strict case."""
+        lvl = self.level(ip, now)
+        if abs(lvl - 1) >= EPS:
+            return False
+        if lvl != 1:
+            return True
+        return self.inexact.get(ip, False) or not self._step_exact(ip, now)
+
+    def _step_exact(self, ip, now):
+        st = self.b.get(ip)
+        if st is None:
+            return True
+        tok, last = st
+        el = Fraction(now) - last
+        return self._repr(el) and self._repr(el * self.rate) and self._repr(tok + el * self.rate)
 
     def level(self, ip, now):
         now = Fraction(now)
@@ -64,6 +94,13 @@ class Model:
 
     def commit(self, ip, now, admitted):
         lvl = self.level(ip, now)
+        st = self.b.get(ip)
+        if st is not None:
+            raw = st[0] + (Fraction(now) - st[1]) * self.rate
+            if raw >= self.cap + EPS:
+                self.inexact[ip] = False      # clamped to a full bucket: history forgotten
+            elif not self._step_exact(ip, now):
+                self.inexact[ip] = True
         if admitted:
             lvl -= 1
         self.b[ip] = (lvl, Fraction(now))
@@ -139,7 +176,7 @@ def run_one(ch):
     def check_decision(t, ip, allow, response):
         lvl = model.level(ip, t)
         expect = lvl >= 1
-        if lvl != 1 and abs(lvl - 1) < EPS:
+        if model.grey(ip, t):
             expect = allow      # grey zone: float vs exact
         if allow != expect:
             res.violate(
@@ -272,7 +309,7 @@ def run_one(ch):
         exp = {}
         for t, ip in order:
             lvl = model.level(ip, t)
-            if lvl != 1 and abs(lvl - 1) < EPS:
+            if model.grey(ip, t):
                 return   # grey zone inside a wire run: give up on this run (rare)
             a = lvl >= 1
             model.commit(ip, t, a)
@@ -325,10 +362,39 @@ def run_one(ch):
             known = observe_buckets(known)
         await rl.stop()
 
+    async def flood():
+        """Many distinct other addresses between two visits of a drained address:
+        the size of the table must not matter to anybody's allowance."""
+        rl = RateLimiter(make_config())
+        rl_holder["rl"] = rl
+        rl.start()
+        n_other = ch.pick("flood.n", [50, 1500, 5000, 9000], [2, 2, 3, 1])
+        for ip in addrs:
+            for _ in range(cap + 1 + ch.choose("flood.pre", 2)):
+                allow, resp = await rl.process_request("gemini://h.sim/", ip, None)
+                check_decision(net.now, ip, allow, resp)
+        step = ch.pick("flood.step", [0.0, 0.0001, 0.01])
+        for i in range(n_other):
+            other = f"2001:db8:1::{i:x}" if i % 2 else f"10.{2 + i // 60000}.{(i // 250) % 250}.{i % 250}"
+            allow, resp = await rl.process_request("gemini://h.sim/", other, None)
+            check_decision(net.now, other, allow, resp)
+            if i % 500 == 499:
+                await asyncio.sleep(step * 500)
+        for rnd in range(2):
+            for ip in addrs:
+                for _ in range(1 + ch.choose("flood.post", cap + 1)):
+                    allow, resp = await rl.process_request("gemini://h.sim/", ip, None)
+                    check_decision(net.now, ip, allow, resp)
+            await asyncio.sleep(ch.pick("flood.gap", [0.0, 1.0, 30.0]))
+        await rl.stop()
+
     race_mode = (not wire) and ch.chance("race", 0.15)
+    flood_mode = (not wire) and not race_mode and ch.chance("flood", 0.02)
     if race_mode:
         res.stats["cleanup_race_scenario"] += 1
-    main = wired() if wire else (race() if race_mode else direct())
+    if flood_mode:
+        res.stats["many_address_flood"] += 1
+    main = wired() if wire else (race() if race_mode else (flood() if flood_mode else direct()))
     status = sim.run(main, horizon=10_000_000.0, max_iterations=400000)
     if sim.error is not None:
         raise sim.error
